@@ -2,7 +2,9 @@
 carrying the same fixed values (C05) and with the model's restrict_rows (C15)."""
 import pickle
 from common import sx, run_dsgm, rng_for, is_model_error
-import dsgcase, procdrive
+import dsgcase
+# known-finding classes whose mechanism lies in the complete encoder: the fast encoder's decode is still compared with its model
+FAST_MODEL_COVERS = {'K13'}, procdrive
 
 
 def _rows(gp, E_all, fixed):
@@ -139,7 +141,7 @@ def run(case, kind, seed=0, n_ops=10, ops=None, profile=None):
     # the fast encoder's decode as a function of graph, vector and fixed flags (Greedy.fast_decode), compared "=": no choice
     # constraints, outside the known-finding classes
     fast_vars = None
-    if kind == 'fast' and not case.get('conn') and not dsgcase.guards(case):
+    if kind == 'fast' and not case.get('conn') and not (dsgcase.guards(case) - FAST_MODEL_COVERS):
         declared = {e[1]: (j, e[2]) for j, e in enumerate(E) if e[0] == 'sel'}
         # design-vector order: the declared selection variables as the encoding lists them (the analyzer orders choices
         # layer by layer), the undeclared (forced) ones after them -- they have one value; application order: by decision id
